@@ -325,8 +325,8 @@ def _b_shard(sh: Dict[str, Any]) -> Dict[str, Any]:
             kk = e.choice("kinds", 3)
             kinds = [kk if k == n - 1 or k == 0 else 0 for k in range(n)]
         else:
-            kinds = [e.choice(f"kind{k}", 3) for k in range(n)]
-        entry = e.choice("entry", 4)
+            kinds = [sh["kind0"] if (k == 0 and sh.get("kind0") is not None) else e.choice(f"kind{k}", 3) for k in range(n)]
+        entry = sh["entry"] if sh.get("entry") is not None else e.choice("entry", 4)
         o = i = lim = lf = None
         # anchors: the n scenario levels and (index n) the frame that itself calls stackscope
         if entry in (0, 1) and e.flag("has_outer"):
@@ -356,7 +356,7 @@ def _b_shard(sh: Dict[str, Any]) -> Dict[str, Any]:
 
     eng = Engine(max_seconds=sh.get("budget", 240) * (6 if os.environ.get("VERIF_TIER_EFFECTIVE") == "thorough" else 1))
     eng.explore(harness)
-    return par.shard_result(eng, shard=f"real n={n}", cex=cex, samples=samples, reached=reached[0])
+    return par.shard_result(eng, shard=f"real n={n}" + (f" entry={sh['entry']} kind0={sh['kind0']}" if sh.get("entry") is not None else ""), cex=cex, samples=samples, reached=reached[0])
 
 
 # --------------------------------------------------------------- interface
@@ -377,7 +377,10 @@ def run(rep: Any, tier: str, seed: int) -> None:
     res = par.run_shards("harness.c04", "_a_shard", [{"n": n} for n in range(1, NA + 1)])
     for c in par.fold(rep, OB_A, res):
         rep.counterexample(OB_A, c, c["why"])
-    res = par.run_shards("harness.c04", "_b_shard", [{"n": n, "tier": tier} for n in range(1, NB + 1)])
+    bsh: List[Dict[str, Any]] = [{"n": n, "tier": tier} for n in range(1, NB + 1)]
+    if tier == "thorough":   # the deep levels are split so that every shard finishes within its budget
+        bsh = [s_ for s_ in bsh if s_["n"] < 3] + [dict(s_, entry=en, kind0=k0) for s_ in bsh if s_["n"] >= 3 for en in range(4) for k0 in range(3)]
+    res = par.run_shards("harness.c04", "_b_shard", bsh)
     for c in par.fold(rep, OB_B, res):
         rep.counterexample(OB_B, c, c["why"])
     if tier == "thorough":
